@@ -173,6 +173,45 @@ func excused(err error) bool {
 	return false
 }
 
+// typeAt follows a mutation path ("/key/0/...") through the Go type; nil if it cannot be followed.
+func typeAt(t reflect.Type, path string) reflect.Type {
+	if path == "" {
+		return t
+	}
+	for _, seg := range strings.Split(path[1:], "/") {
+		for t.Kind() == reflect.Pointer {
+			t = t.Elem()
+		}
+		switch t.Kind() {
+		case reflect.Struct:
+			var ft reflect.Type
+			for _, f := range gen.JSONFields(t) {
+				if f.Name == seg {
+					ft = f.Type
+				}
+			}
+			if ft == nil {
+				return nil
+			}
+			t = ft
+		case reflect.Map, reflect.Slice, reflect.Array:
+			t = t.Elem()
+		default:
+			return nil
+		}
+	}
+	return t
+}
+
+func neverNil(t reflect.Type) bool {
+	switch t.Kind() {
+	case reflect.Bool, reflect.Int, reflect.Int8, reflect.Int16, reflect.Int32, reflect.Int64, reflect.Uint, reflect.Uint8, reflect.Uint16, reflect.Uint32, reflect.Uint64, reflect.Uintptr,
+		reflect.Float32, reflect.Float64, reflect.String, reflect.Struct, reflect.Array:
+		return true
+	}
+	return false
+}
+
 func hasMarshaler(t reflect.Type, seen map[reflect.Type]bool) bool {
 	if gen.IsMarshalerType(t) {
 		return true
@@ -201,7 +240,7 @@ func Run(r *ev.Run) {
 	if thorough {
 		limit = 16
 	}
-	r.Rule("for every type of C04's domain without standard-library marshaler types and every enumerated value: the valid encoding and EVERY single-point mutation of it (each node swapped for each of 12 values of other JSON types; each integer pushed to every sized-integer bound and bound+-1 within the 64-bit range; each key dropped; a fresh key and a case variant of each key added; arrays shortened, lengthened, null appended), written as text with integers in plain decimal; if the inferred schema validates the document, json.Decoder with DisallowUnknownFields must decode it into T. Non-trivial = the document validated (the implication's premise holds); documents are de-duplicated per type")
+	r.Rule("for every type of C04's domain without standard-library marshaler types and every enumerated value: the valid encoding and EVERY single-point mutation of it (each node swapped for each of 12 values of other JSON types; each integer pushed to every sized-integer bound and bound+-1 within the 64-bit range; each key dropped; a fresh key and a case variant of each key added; arrays shortened, lengthened, null appended), written as text with integers in plain decimal; if the inferred schema validates the document, json.Decoder with DisallowUnknownFields must decode it into T; and a null swapped into a position whose Go type can never be nil (bool, number, string, struct, array) must be rejected by the schema. Non-trivial = the document validated (the implication's premise holds); documents are de-duplicated per type")
 	r.Assume("encoding/json strict decoding is the oracle", "an integer outside the 64-bit range of a 64-bit target's signedness is outside the domain; floats out of float32 range are not generated")
 	r.Set("types", len(ts))
 	par.For(len(ts), r.Expired, func(i int, j par.Journal) {
@@ -252,6 +291,16 @@ func Run(r *ev.Run) {
 				return
 			}
 			accepted++
+			// "null in a non-nullable position ... rejected": encoding/json itself ignores null
+			// everywhere, so this clause needs its own oracle - a position whose Go type can
+			// never be nil (bool, number, string, struct, array)
+			if strings.HasPrefix(what, "swap ") && strings.HasSuffix(what, " -> null") {
+				path := strings.TrimSuffix(strings.TrimPrefix(what, "swap "), " -> null")
+				if pt := typeAt(t.Type, path); pt != nil && neverNil(pt) {
+					r.Fail(dkey, map[string]any{"class": "null accepted in a non-nullable position", "mutation": what, "go_type_at_position": pt.String()})
+					return
+				}
+			}
 			dec := json.NewDecoder(strings.NewReader(text))
 			dec.DisallowUnknownFields()
 			target := reflect.New(t.Type)
